@@ -44,6 +44,7 @@ func init() {
 		return genRunnerCase(r, visitCfg, opsCfg{steps: 40, extraAfterEnd: 1, snapshots: true, runners: 1})
 	}, run: runRunnerCase})
 	register("exprs", family{gen: genExprCase, run: runRunnerCase})
+	register("cmdargs", family{gen: genCmdArgsCase, run: runRunnerCase})
 	rndCfg := flowCfg
 	rndCfg.randomFns, rndCfg.wCmd, rndCfg.wStop, rndCfg.faultPct = true, 0, 0, 0
 	register("random", family{gen: func(r *rand.Rand, tier string) *sx.Node {
@@ -442,4 +443,78 @@ func runRepeated(c *sx.Node) *sx.Node {
 		d = sx.Str(r3)
 	}
 	return sx.Tag("differ", a, b, d)
+}
+
+var cmdNames = []string{"walk", "say", "iffy", "settings", "jumpy", "caller", "declared", "localise", "enumerate", "cases", "ifelse", "wálk", "set_up", "x"}
+var cmdWords = []string{"left", "3", "-3", "0.5", "-12.25", "007", "true", "false", "True", "inf", "NaN", "1e3", ".5", "5.", "+5", "0x10", "-", "--1",
+	"1.2.3", "né", "日本", "a,b", "x=1", "#tag", "a/b", "it's", "\"q\"", "1_000", "tru", "falsey", "-0", "00", "9999999999999999999999"}
+var cmdSeps = []string{" ", " ", "  ", "\t", " \t ", "   "}
+
+// genCmdArgsCase: generic commands written as raw text (C17): names incl. keyword-prefixed ones, words
+// from mixed alphabets, any spacing, inline expressions of every type; every name is registered as
+// a host command except "unknown".
+func genCmdArgsCase(r *rand.Rand, tier string) *sx.Node {
+	cfg := flowCfg
+	cfg.exprDepth, cfg.faultPct, cfg.visitedFns = 1, 0, false
+	g := &dgen{r: r, cfg: cfg}
+	g.nodes = []string{"Start"}
+	g.vars = map[string][]string{"num": {"n1"}, "bool": {"b1"}, "str": {"s1"}}
+	body := []*sx.Node{sx.Tag("declare", sx.Str("n1"), numLit(3)), sx.Tag("declare", sx.Str("b1"), boolLit(true)), sx.Tag("declare", sx.Str("s1"), strLit("one"))}
+	k := 2 + r.Intn(5)
+	for i := 0; i < k; i++ {
+		name := cmdNames[r.Intn(len(cmdNames))]
+		switch r.Intn(12) {
+		case 0:
+			name = "unknown"
+		case 1:
+			name = "stop"
+		}
+		els := []*sx.Node{}
+		text := name
+		if r.Intn(8) == 0 {
+			text = cmdSeps[r.Intn(len(cmdSeps))] + text // blanks after << are hidden by the lexer... only before a keyword; here they are text
+			text = strings.TrimLeft(text, " \t")
+		}
+		n := r.Intn(6)
+		for j := 0; j < n; j++ {
+			sep := cmdSeps[r.Intn(len(cmdSeps))]
+			if r.Intn(4) == 0 {
+				els = append(els, sx.Tag("t", sx.Str(text+sep)))
+				text = ""
+				els = append(els, sx.Tag("e", g.expr([]string{"num", "bool", "str"}[r.Intn(3)], 1)))
+				if r.Intn(3) == 0 {
+					text = "" // the next word follows the expression directly
+				}
+			} else {
+				text += sep + cmdWords[r.Intn(len(cmdWords))]
+			}
+		}
+		if r.Intn(4) == 0 {
+			text += cmdSeps[r.Intn(len(cmdSeps))]
+		}
+		if text != "" {
+			els = append(els, sx.Tag("t", sx.Str(text)))
+		}
+		body = append(body, sx.Tag("rawcmd", els...))
+		if name == "stop" {
+			break
+		}
+	}
+	body = append(body, sx.Tag("line", sx.List(sx.Tag("t", sx.Str("done"))), sx.List(), sx.List()))
+	nodes := []*sx.Node{sx.Tag("node", sx.List(sx.List(sx.Str("title"), sx.Str("Start"))), sx.List(body...))}
+	hc := []*sx.Node{}
+	for _, n := range cmdNames {
+		hc = append(hc, sx.Str(n))
+	}
+	hc = append(hc, sx.Str("stop")) // a handler registered under "stop" must never run
+	ops := []*sx.Node{}
+	for i := 0; i < k+2; i++ {
+		ops = append(ops, sx.Tag("next", sx.Int(0), sx.Int(0)))
+	}
+	lseed := r.Int63()
+	lay := randomLayout(rand.New(rand.NewSource(lseed)))
+	lay.trailingCmt, lay.blankProb = 0, 0
+	return sx.Tag("runner", seedNode(randomSeed(r), 4), sx.Tag("storer", sx.Bool(false)), sx.Tag("init"), sx.Tag("hcmds", hc...),
+		sx.Tag("sched"), sx.Tag("nrunners", sx.Int(1)), sx.Tag("nodes", sx.List(nodes...)), sx.Tag("readers", sx.Int(1)),
+		layoutToSx(lay, lseed), sx.Tag("ops", ops...))
 }
